@@ -10,7 +10,7 @@ use crate::keys;
 use crate::model::*;
 use crate::rng::SimRng;
 use crate::wire::{byte_mutate, decode_guarded, struct_mutate, Decoded};
-use bc_components::{DigestProvider, SSKRGroupSpec, SSKRSpec, Signature, Signer, Verifier};
+use bc_components::{DigestProvider, SSKRGroupSpec, SSKRSpec, Signature, Signer, SigningOptions, SigningPrivateKey, Verifier};
 use bc_envelope::prelude::*;
 use bc_envelope::SignatureMetadata;
 use std::collections::{BTreeMap, BTreeSet};
@@ -246,6 +246,98 @@ pub fn run_sign(scn: &Scenario, ctx: &mut Ctx) {
                     }
                 }
                 ctx.t(&format!("S.Sign {} {} meta={}", sch, id, meta));
+            }
+            "S.SignBatch" => {
+                // several signers in one call (add_signatures / add_signatures_opt): the same as signing one after
+                // the other. Schemes 0..=3 only (deterministic, and free of the known SSH ECDSA encoding defect).
+                let mut r = SimRng::new(st.arg(0));
+                let k = r.range(2, 3) as usize;
+                let who: Vec<(u8, u8)> = (0..k).map(|_| (r.below(4) as u8, r.below(3) as u8)).collect();
+                let plain = st.arg(1) % 2 == 0 && who.iter().all(|(sch, _)| !keys::is_ssh(*sch));
+                let sks: Vec<SigningPrivateKey> = who.iter().map(|(sch, id)| keys::signing(*sch, *id).0).collect();
+                let meta_last = !plain && st.arg(1) % 4 == 1;
+                let env0 = s.env.clone();
+                let res = if plain {
+                    let refs: Vec<&dyn Signer> = sks.iter().map(|k| k as &dyn Signer).collect();
+                    guarded(|| env0.add_signatures(&refs))
+                } else {
+                    let n = sks.len();
+                    let items: Vec<(&dyn Signer, Option<SigningOptions>, Option<SignatureMetadata>)> = sks
+                        .iter()
+                        .zip(who.iter())
+                        .enumerate()
+                        .map(|(i, (k, (sch, _)))| {
+                            let md = if meta_last && i + 1 == n { Some(SignatureMetadata::new().with_assertion(known_values::NOTE, "batch")) } else { None };
+                            (k as &dyn Signer, keys::sig_options(*sch), md)
+                        })
+                        .collect();
+                    guarded(|| env0.add_signatures_opt(&items))
+                };
+                match res {
+                    Ok(e) => {
+                        s.env = e;
+                        for (i, (sch, id)) in who.iter().enumerate() {
+                            if !s.unknown.contains(&(*sch, *id)) {
+                                s.valid.insert((*sch, *id));
+                                s.signed.insert(((*sch, *id), digest_of(&s.env.subject())));
+                            }
+                            if meta_last && i + 1 == who.len() {
+                                s.with_meta.insert((*sch, *id));
+                            }
+                        }
+                        ctx.probe("signed-in-one-batch");
+                    }
+                    Err(p) => {
+                        ctx.checked();
+                        ctx.violate_sig("C09.table", format!("adding signatures of {:?} in one call panicked: {}", who, p), p);
+                    }
+                }
+                ctx.t(&format!("S.SignBatch {:?} plain={}", who, plain));
+            }
+            "S.Detached" => {
+                // a signature made apart from the envelope (over the subject digest), checked against the envelope
+                // as it is now - whatever assertions it has gathered - and then attached as a 'signed' assertion
+                let sch = (st.arg(0) % 4) as u8;
+                let id = (st.arg(1) % 3) as u8;
+                let (sk, pk) = keys::signing(sch, id);
+                let subj_digest = *s.env.subject().digest().data();
+                let sig = match sk.sign_with_options(&subj_digest, keys::sig_options(sch)) {
+                    Ok(x) => x,
+                    Err(_) => continue,
+                };
+                let other_digest = *Envelope::new("another subject").digest().data();
+                let sig_other = sk.sign_with_options(&other_digest, keys::sig_options(sch)).ok();
+                let (_, pk_other) = keys::signing(sch, (id + 1) % 3);
+                let env = s.env.clone();
+                ctx.checked();
+                match guarded(|| (env.is_verified_signature(&sig, &pk), env.verify_signature(&sig, &pk).is_ok(), env.is_verified_signature(&sig, &pk_other), sig_other.as_ref().map(|so| env.is_verified_signature(so, &pk)))) {
+                    Ok((own, own_v, other_key, other_subject)) => {
+                        if !own || !own_v {
+                            ctx.violate("C09.table", format!("a signature by key ({},{}) over the subject digest is not reported as verified for the envelope (is_verified_signature {}, verify_signature {})", sch, id, own, own_v));
+                        }
+                        if other_key {
+                            ctx.violate("C09.table", "is_verified_signature accepts a signature under another key".to_string());
+                        }
+                        if other_subject == Some(true) {
+                            ctx.violate("C09.table", "is_verified_signature accepts a signature made over a different subject".to_string());
+                        }
+                    }
+                    Err(p) => ctx.violate_sig("C16.no-panic", format!("is_verified_signature / verify_signature panicked: {}", p), p),
+                }
+                let note = if st.arg(2) % 2 == 0 { Some("countersigned copy") } else { None };
+                match guarded(|| env.add_assertion_envelope(env.make_signed_assertion(&sig, note))) {
+                    Ok(Ok(e)) => {
+                        s.env = e;
+                        if !s.unknown.contains(&(sch, id)) {
+                            s.valid.insert((sch, id));
+                            s.signed.insert(((sch, id), subj_digest));
+                        }
+                        ctx.probe("detached-signature-attached");
+                    }
+                    Ok(Err(e)) => ctx.violate("C09.table", format!("a 'signed' assertion made by make_signed_assertion was refused: {}", e)),
+                    Err(p) => ctx.violate_sig("C16.no-panic", format!("make_signed_assertion panicked: {}", p), p),
+                }
+                ctx.t(&format!("S.Detached {} {}", sch, id));
             }
             "S.AddOther" => {
                 // an unrelated assertion: the subject digest is unchanged, so every signature stays valid
@@ -587,7 +679,9 @@ pub fn generate_sign(property: &str, r: &mut SimRng, seed: u64) -> Scenario {
     let byz = r.chance(1, 3);
     for _ in 0..n {
         match r.below(20) {
-            0..=5 => scn.push("S.Sign", &[r.below(16), r.below(3), r.below(9)]),
+            0..=3 => scn.push("S.Sign", &[r.below(16), r.below(3), r.below(9)]),
+            4 => scn.push("S.SignBatch", &[r.next(), r.below(4)]),
+            5 => scn.push("S.Detached", &[r.below(4), r.below(3), r.below(2)]),
             6 => scn.push("S.AddOther", &[r.below(5), r.below(100)]),
             7..=8 => scn.push("S.ObscureSubject", &[r.below(3), r.below(4)]),
             9 => scn.push("S.ObscureOther", &[r.below(8), r.below(3)]),
@@ -1138,6 +1232,55 @@ pub fn run_sskr(scn: &Scenario, ctx: &mut Ctx) {
                 }
                 ctx.probe("duplicate-share");
             }
+            "K.Resplit" => {
+                // a custodian splits the share envelope it holds once more (same content key, its own policy) and
+                // hands the pieces on: each piece carries the old share assertion as well as a new one. A quorum
+                // of the second split opens the envelope; less does not, unless the old share alone satisfies the
+                // first policy.
+                let s = (st.arg(3) % flat.len() as u64) as usize;
+                let holder = flat[s].1.clone();
+                let spec2 = SSKRSpec::new(1, vec![SSKRGroupSpec::new(2, 3).unwrap()]).unwrap();
+                let second: Vec<Envelope> = match guarded(|| holder.sskr_split_flattened(&spec2, &ck)) {
+                    Ok(Ok(x)) => x,
+                    Ok(Err(e)) => {
+                        ctx.checked();
+                        ctx.violate("C11.split", format!("splitting a share envelope again failed: {}", e));
+                        continue;
+                    }
+                    Err(p) => {
+                        ctx.violate_sig("C11.no-panic", format!("sskr_split of a share envelope panicked: {}", p), p);
+                        continue;
+                    }
+                };
+                let second: Vec<Envelope> = second.iter().filter_map(|e| transmit(ctx, e)).collect();
+                if second.len() != 3 {
+                    ctx.violate("C11.split", "the second split did not return three share envelopes that survive transport".to_string());
+                    continue;
+                }
+                let old_alone = policy_met(&groups, gt, &[flat[s].0]);
+                for mask in 1u32..8 {
+                    let envs: Vec<&Envelope> = (0..3).filter(|i| mask & (1 << i) != 0).map(|i| &second[i]).collect();
+                    let met2 = envs.len() >= 2;
+                    ctx.checked();
+                    ctx.fault("net.drop");
+                    match guarded(|| Envelope::sskr_join(&envs)) {
+                        Ok(Ok(x)) => {
+                            if !ident(&x, &expected_subject) {
+                                ctx.violate("C11.never-wrong", "join of a re-split share envelope returned an envelope that is not the original decrypted subject".to_string());
+                            } else if !met2 && !old_alone {
+                                ctx.violate("C11.iff", "join of one piece of a re-split share envelope succeeded although neither policy is satisfied".to_string());
+                            }
+                        }
+                        Ok(Err(e)) => {
+                            if met2 {
+                                ctx.violate("C11.iff", format!("join failed although {} of the 2-of-3 pieces of a re-split share envelope were presented (each also carries the share of the first split): {}", envs.len(), e));
+                            }
+                        }
+                        Err(p) => ctx.violate_sig("C11.no-panic", format!("sskr_join of re-split pieces panicked: {}", p), p),
+                    }
+                }
+                ctx.probe("share-envelope-split-again");
+            }
             "K.Foreign" => {
                 // shares of a second split (other document, other key) mixed in by a misrouting network
                 let o = w.idx(st.arg(3)).unwrap_or(d);
@@ -1190,7 +1333,7 @@ pub fn generate_sskr(property: &str, r: &mut SimRng, seed: u64) -> Scenario {
     scn.family = "sskr".to_string();
     let keep = r.range(2, 6) as usize;
     scn.steps.truncate(keep.max(2));
-    let op = *r.pick(&["K.Subsets", "K.Subsets", "K.Subsets", "K.Dup", "K.Foreign", "K.Extreme"]);
+    let op = *r.pick(&["K.Subsets", "K.Subsets", "K.Subsets", "K.Dup", "K.Foreign", "K.Extreme", "K.Resplit"]);
     scn.push(op, &[ds(r), r.next(), r.below(16), r.next()]);
     scn
 }
